@@ -61,7 +61,7 @@ def universe(rng, nmax, n_target, fail_mode, layouts=("flat", "lit", "nested")):
             cfg = {"n": n, "nodes": g, "req": req, "nw": rng.choice([1, 2, 3]), "cs": rng.choice([1, 1, 2, 3, -1]), "fails": [],
                    "pack": rng.random() < 0.6}
             datas = sorted(k for k in S.needed(cfg) if g[k - 1]["kind"] == "data")
-            if datas and rng.random() < 0.25:
+            if datas and rng.random() < 0.4:
                 cfg["stale"] = sorted(rng.sample(datas, rng.randint(1, len(datas))))
             tasks = sorted(k for k in S.needed(cfg) if g[k - 1]["kind"] == "task")
             if fail_mode != "none" and tasks and (fail_mode == "always" or rng.random() < 0.3):
@@ -105,6 +105,9 @@ def structured_configs(rng, n, fail_mode="none"):
         req = {"x": [{"k": k} for k in ks]} if rng.random() < 0.8 else {"k": m}
         cfg = {"n": m, "nodes": g, "req": req, "nw": rng.choice([1, 2, 3, 3, 4]), "cs": rng.choice([1, 2, 2, 3, -1]), "fails": [],
                "pack": rng.random() < 0.7}
+        datas = sorted(k for k in S.needed(cfg) if g[k - 1]["kind"] == "data")
+        if datas and rng.random() < 0.4:
+            cfg["stale"] = datas               # a caller-supplied cache= that still holds the literal (wide fan-out from it)
         tasks = sorted(k for k in S.needed(cfg) if g[k - 1]["kind"] == "task")
         if not tasks and fail_mode == "always":
             continue
